@@ -198,7 +198,12 @@ func (f *Frame) callWith(in ssa.Instruction, c *ssa.CallCommon, fv Val, args []V
 	switch {
 	case con != nil && !con.Inline:
 		if con.NoFrame {
-			vc.unsupported("call of a noframe entry point from code under contract")
+			if len(con.Modifies) == 0 {
+				// no frame is specified: everything reachable from the arguments may change
+				_ = f.unknownCall("noframe:"+key, c, args, o, resT)
+			} else {
+				vc.trustNotes = append(vc.trustNotes, "frame of "+key+" (noframe with a modifies list) is assumed at its call sites, not checked against its body")
+			}
 		}
 		vc.usedCon[key] = true
 		res = f.applyContract(con, fn, c, args, o, resT, ordName, in)
